@@ -71,6 +71,14 @@ def load(path: Union[str, DDSPath, pathlib.Path]) -> Any:
         # This path is produced by the current evaluation. The paths are only committed at the end of an
         # evaluation: the store would still serve the previous content (or nothing at all).
         key = _eval_ctx.requested_paths[path_]
+        if not _store().has_blob(key):
+            # The call that produces this path has not completed (it comes later, or it failed and the
+            # exception was caught by the caller): there is nothing to load.
+            raise DDSException(
+                f"The path {path_} is produced by the current evaluation, but the call that produces it "
+                f"has not completed: there is nothing to load yet.",
+                DDSErrorCode.STORE_PATH_NOT_FOUND,
+            )
     elif (
         _eval_ctx is not None
         and _eval_ctx.resolved_loads is not None
